@@ -4,10 +4,12 @@ use rusty_variant::Variant;
 use crate::RuntimeError;
 use crate::interpreter::byte_size::QByteSize;
 use crate::interpreter::interpreter_trait::InterpreterTrait;
+use crate::interpreter::variant_casts::whole_number_to_variant;
 
 pub fn run<S: InterpreterTrait>(interpreter: &mut S) -> Result<(), RuntimeError> {
     let v: &Variant = &interpreter.context()[0];
-    let len: i32 = v.byte_size() as i32;
+    // a string can be longer than the largest INTEGER
+    let len: Variant = whole_number_to_variant(v.byte_size() as usize);
     interpreter
         .context_mut()
         .set_built_in_function_result(BuiltInFunction::Len, len);
